@@ -38,9 +38,14 @@ def norm(s):
 
 def function_body(src, name):
     """text between the braces of the definition of `name` (brace matching)"""
-    m = re.search(r'^%s\s*\(' % re.escape(name), src, re.M)
+    m = None
+    for cand in re.finditer(r'^%s\s*\(' % re.escape(name), src, re.M):
+        nxt = re.search(r'[{;]', src[cand.end():])          # a definition, not a forward declaration
+        if nxt and nxt.group(0) == '{':
+            m = cand
+            break
     if not m:
-        raise SystemExit('gen_ffisizes: function %s not found in giroffsets.c' % name)
+        raise SystemExit('gen_ffisizes: function %s not found' % name)
     i = src.index('{', m.end())
     depth = 0
     for j in range(i, len(src)):
@@ -168,13 +173,13 @@ def main():
     #  * start_type: when a C array typed field is NOT a pointer (fixed-size; or no length and no pointer c:type)
     with open(os.path.join(REPO, 'girepository', 'girparser.c')) as f:
         psrc = strip_comments(f.read())
-    fb = norm(function_body(psrc, 'start_function'))
+    fb = ' '.join(function_body(psrc, 'start_function').split())      # literals kept: they are the shape here
     try:
         i = fb.index('case STATE_CLASS_FIELD:')
         inline_cb = fb[i:fb.index('default:', i)].strip()
     except ValueError:
         raise SystemExit('gen_ffisizes: the field-state cases of start_function were not found in girparser.c')
-    tb = norm(function_body(psrc, 'start_type'))
+    tb = ' '.join(function_body(psrc, 'start_type').split())
     try:
         i = tb.index('if (typenode->has_size && ctx->current_typed->type == G_IR_NODE_FIELD)')
         array_ptr = tb[i:tb.index('} else {', i)].strip()
